@@ -1133,7 +1133,7 @@ struct Case {
             }
             QByteArray snonce = "srvNonce" + QByteArray::number(g_seq);
             QByteArray fullNonce = cnonce + snonce;
-            if (variant == u"bad-nonce") fullNonce = "X" + fullNonce.mid(1);
+            if (variant == u"bad-nonce") fullNonce = (fullNonce.startsWith('X') ? "Y" : "X") + fullNonce.mid(1);
             if (variant == u"short-nonce") fullNonce = cnonce;
             QByteArray serverFirst = "r=" + fullNonce + ",s=" + salt.toBase64() + ",i=" + QByteArray::number(iters);
             if (variant == u"zero-iterations") serverFirst = "r=" + fullNonce + ",s=" + salt.toBase64() + ",i=0";
